@@ -2,8 +2,10 @@
   C14, the host LEXER: how a C++ compiler (translation phase 3, maximal munch) tokenises expression text
   that prophyc pastes into generated code, compared with calc's own lexer `Expr.lex false`.
 
-  * `unwritable`  : prophyc/model.py `UNWRITABLE_TEXT = [\x00-\x08\x0a-\x1f]|--|\+\+|0[xX][0-9a-fA-F]*[eE][-+]` as a
-                    scan (TAB, which calc skips like a blank, is not refused);
+  * `unwritable`  : prophyc/model.py
+                    `UNWRITABLE_TEXT = [\x00-\x08\x0a-\x1f]|--|\+\+|(?<![A-Za-z0-9_])0[xX][0-9a-fA-F]*[eE][-+]` as a
+                    scan (TAB, which calc skips like a blank, is not refused; `0x1e+` inside an identifier is not
+                    refused);
   * `cppLex`      : phase 3 on the alphabet calc accepts (pp-numbers, identifiers, the punctuators made of
                     `+ - * / | ( ) < >`, comment openers), one step `cppHead`;
   * `ofCTok`      : which C++ tokens are calc tokens (and with which value);
@@ -32,15 +34,19 @@ def hexE : Bool → List Char → Bool
   | _, [] => false
   | lastE, c :: r => if isHexC c then hexE (c == 'e' || c == 'E') r else lastE && isSignC c
 
-/-- UNWRITABLE_TEXT matches at this position (`c` the character here, `r` the text after it) -/
-def unwAt (c : Char) (r : List Char) : Bool :=
+/-- UNWRITABLE_TEXT matches at this position (`c` the character here, `r` the text after it, `prev` = the
+    character before is an identifier character: the look-behind `(?<![A-Za-z0-9_])` of the hex clause) -/
+def unwAt (prev : Bool) (c : Char) (r : List Char) : Bool :=
   decide (c.toNat < 32 ∧ c ≠ '\t') || (c == '-' && nextIs '-' r) || (c == '+' && nextIs '+' r) ||
-  (c == '0' && (nextIs 'x' r || nextIs 'X' r) && hexE false r.tail)
+  (!prev && c == '0' && (nextIs 'x' r || nextIs 'X' r) && hexE false r.tail)
+
+/-- the scan, carrying "the previous character is an identifier character" (as `hlz` does) -/
+def unw : Bool → List Char → Bool
+  | _, [] => false
+  | prev, c :: r => unwAt prev c r || unw (isIdChar c) r
 
 /-- `re.search(UNWRITABLE_TEXT, text)` finds a match -/
-def unwritable : List Char → Bool
-  | [] => false
-  | c :: r => unwAt c r || unwritable r
+def unwritable (cs : List Char) : Bool := unw false cs
 
 /-! ### 2. translation phase 3 on calc's alphabet -/
 
@@ -314,13 +320,13 @@ theorem hexE_run_p24 : ∀ (hs : List Char) (e : Bool) (rest : List Char), (∀ 
 
 /-! ### one step of the C++ lexer against one step of calc's -/
 
-theorem unwAt_plus_p24 (r : List Char) : unwAt '+' r = nextIs '+' r := by
+theorem unwAt_plus_p24 (r : List Char) : unwAt false '+' r = nextIs '+' r := by
   unfold unwAt; cases nextIs '+' r <;> rfl
 
-theorem unwAt_minus_p24 (r : List Char) : unwAt '-' r = nextIs '-' r := by
+theorem unwAt_minus_p24 (r : List Char) : unwAt false '-' r = nextIs '-' r := by
   unfold unwAt; cases nextIs '-' r <;> rfl
 
-theorem unwAt_hex_p24 (r' : List Char) : unwAt '0' ('x' :: r') = hexE false r' := by
+theorem unwAt_hex_p24 (r' : List Char) : unwAt false '0' ('x' :: r') = hexE false r' := by
   unfold unwAt; rfl
 
 theorem cppHead_digit_p24 (c : Char) (r : List Char) (hd : c.isDigit = true) :
@@ -351,7 +357,7 @@ theorem lexHead_hex_p24 (octal : Bool) (r' : List Char) : lexHead octal '0' ('x'
 
 theorem cppHead_agree_p24 (c : Char) (r : List Char) (ot : Option Tok) (rest : List Char)
     (h : lexHead false c r = some (ot, rest))
-    (hu : unwAt c r = false) (hz : hlz false (c :: r) = false)
+    (hu : unwAt false c r = false) (hz : hlz false (c :: r) = false)
     (hm : c = '-' → nextIs '>' r = false)
     (hs : c = '/' → nextIs '/' r = false ∧ nextIs '*' r = false)
     (hb : c = '|' → nextIs '|' r = false)
@@ -673,11 +679,172 @@ theorem ctx_p24 (n : Nat) (c : Char) (r : List Char) (ot : Option Tok) (rest : L
 
 /-! ### 4. the main theorem -/
 
-theorem unwritable_suffix_p24 : ∀ (pre rest : List Char), unwritable (pre ++ rest) = false → unwritable rest = false
-  | [], _, h => h
+theorem isIdChar_ge_p24 (c : Char) (h : isIdChar c = true) : 48 ≤ c.toNat := by
+  simp [isIdChar, Char.isAlphanum, Char.isAlpha, Char.isUpper, Char.isLower, Char.isDigit] at h
+  simp only [UInt32.le_iff_toNat_le] at h
+  show 48 ≤ c.val.toNat
+  have e1 : (65 : UInt32).toNat = 65 := by decide
+  have e2 : (97 : UInt32).toNat = 97 := by decide
+  have e3 : (48 : UInt32).toNat = 48 := by decide
+  rcases h with ((h | h) | h) | h
+  all_goals first | omega | (subst h; decide)
+
+theorem unwAt_id_p24 (b : Bool) (c : Char) (r : List Char) (h : isIdChar c = true) (h0 : b = true ∨ c ≠ '0') :
+    unwAt b c r = false := by
+  have hge := isIdChar_ge_p24 c h
+  have e1 : (c == '-') = false := beq_false_of_p24 isIdChar c '-' h (by decide)
+  have e2 : (c == '+') = false := beq_false_of_p24 isIdChar c '+' h (by decide)
+  have e3 : decide (c.toNat < 32 ∧ c ≠ '\t') = false := by
+    rw [decide_eq_false_iff_not]; intro h'; omega
+  have e4 : (!b && c == '0') = false := by
+    rcases h0 with rfl | h0
+    · rfl
+    · have : (c == '0') = false := by simpa using h0
+      rw [this]; simp
+  unfold unwAt
+  rw [e1, e2, e3, e4]
+  rfl
+
+/-- the flag matters only when the text starts with `'0'` -/
+theorem unw_flag_p24 (b b' : Bool) (cs : List Char) (hh : ∀ x, cs.head? = some x → x ≠ '0') :
+    unw b cs = unw b' cs := by
+  cases cs with
+  | nil => rfl
+  | cons c r =>
+    have : (c == '0') = false := by
+      have := hh c rfl
+      simpa using this
+    unfold unw unwAt
+    simp [this]
+
+theorem unw_ids_p24 : ∀ (pre rest : List Char), (∀ x ∈ pre, isIdChar x = true) →
+    unw true (pre ++ rest) = unw true rest
+  | [], _, _ => rfl
   | p :: pre, rest, h => by
-    rw [List.cons_append, unwritable, Bool.or_eq_false_iff] at h
-    exact unwritable_suffix_p24 pre rest h.2
+    have hp := h p (List.mem_cons_self ..)
+    rw [List.cons_append, unw, unwAt_id_p24 true p _ hp (Or.inl rfl), hp, Bool.false_or]
+    exact unw_ids_p24 pre rest (fun x hx => h x (List.mem_cons_of_mem _ hx))
+
+/-- a token made of identifier characters (a name, a literal): only its first position can match -/
+theorem unw_run_p24 (c : Char) (pre rest : List Char) (hc : isIdChar c = true) (hall : ∀ x ∈ pre, isIdChar x = true)
+    (hhead : ∀ x, rest.head? = some x → x ≠ '0') :
+    unw false (c :: (pre ++ rest)) = (unwAt false c (pre ++ rest) || unw false rest) := by
+  rw [unw, hc, unw_ids_p24 pre rest hall, unw_flag_p24 true false rest hhead]
+
+theorem unw_single_p24 (c : Char) (r : List Char) (hc : isIdChar c = false) :
+    unw false (c :: r) = (unwAt false c r || unw false r) := by
+  rw [unw, hc]
+
+/-- the scan along one step of calc's lexer: a match starts at the token's first character, or in the rest -/
+theorem lexHead_unw_p24 (c : Char) (r : List Char) (ot : Option Tok) (rest : List Char)
+    (h : lexHead false c r = some (ot, rest)) :
+    unw false (c :: r) = (unwAt false c r || unw false rest) := by
+  by_cases hdg : c.isDigit = true
+  · by_cases hx : ∃ r', c = '0' ∧ r = 'x' :: r'
+    · obtain ⟨r', rfl, rfl⟩ := hx
+      rw [lexHead_hex_p24] at h
+      unfold numHex at h
+      cases hw : takeWhileAcc (fun d => (hexVal? d).isSome) r' [] with
+      | mk hxs rest' =>
+        rw [hw] at h
+        dsimp only at h
+        split at h
+        · cases h
+        · cases h
+          obtain ⟨e, hall, hhead⟩ := run_spec_p22 _ _ _ _ hw
+          subst e
+          have hall' : ∀ x ∈ hxs, isHexC x = true := hall
+          exact unw_run_p24 '0' ('x' :: hxs) rest (by decide) (by
+            intro d hd
+            rcases List.mem_cons.mp hd with hd | hd
+            · subst hd; decide
+            · exact isHexC_isIdChar_p24 d (hall' d hd)) (by
+            intro x hx e0
+            subst e0
+            have := hhead _ hx
+            revert this; decide)
+    · rw [lexHead_digit_p22 false c r hdg hx] at h
+      unfold numDec at h
+      cases hw : takeWhileAcc Char.isDigit (c :: r) [] with
+      | mk ds rest' =>
+        rw [hw] at h
+        simp only [Bool.false_and, Bool.false_eq_true, if_false] at h
+        cases h
+        obtain ⟨-, hall, hhead⟩ := run_spec_p22 _ _ _ _ hw
+        obtain ⟨ds', e1, e2⟩ := run_ne_nil_p22 _ _ _ _ _ hdg hw
+        subst e1; subst e2
+        exact unw_run_p24 c ds' rest (isDigit_isIdChar_p24 c hdg)
+          (fun x hx => isDigit_isIdChar_p24 x (hall x (List.mem_cons_of_mem _ hx))) (by
+            intro x hx e0
+            subst e0
+            have := hhead _ hx
+            revert this; decide)
+  by_cases his : isIdStart c = true
+  · rw [lexHead_ident_p22 false c r his] at h
+    cases hw : takeWhileAcc isIdChar (c :: r) [] with
+    | mk cs rest' =>
+      rw [hw] at h
+      cases h
+      obtain ⟨-, hall, hhead⟩ := run_spec_p22 _ _ _ _ hw
+      obtain ⟨ds', e1, e2⟩ := run_ne_nil_p22 _ _ _ _ _ (isIdStart_isIdChar_p22 c his) hw
+      subst e1; subst e2
+      exact unw_run_p24 c ds' rest (isIdStart_isIdChar_p22 c his)
+        (fun x hx => hall x (List.mem_cons_of_mem _ hx)) (by
+          intro x hx e0
+          subst e0
+          have := hhead _ hx
+          revert this; decide)
+  have hid : isIdChar c = false := by
+    rw [isIdChar_eq_p24]
+    simp only [Bool.not_eq_true] at hdg his
+    rw [hdg, his]; rfl
+  unfold lexHead at h
+  by_cases h0 : (c == ' ' || c == '\t') = true
+  · rw [if_pos h0] at h; cases h; exact unw_single_p24 c r hid
+  rw [if_neg h0] at h
+  by_cases h1 : (c == '+') = true
+  · rw [if_pos h1] at h; cases h; exact unw_single_p24 c r hid
+  rw [if_neg h1] at h
+  by_cases h2 : (c == '-') = true
+  · rw [if_pos h2] at h; cases h; exact unw_single_p24 c r hid
+  rw [if_neg h2] at h
+  by_cases h3 : (c == '*') = true
+  · rw [if_pos h3] at h; cases h; exact unw_single_p24 c r hid
+  rw [if_neg h3] at h
+  by_cases h4 : (c == '/') = true
+  · rw [if_pos h4] at h; cases h; exact unw_single_p24 c r hid
+  rw [if_neg h4] at h
+  by_cases h5 : (c == '|') = true
+  · rw [if_pos h5] at h; cases h; exact unw_single_p24 c r hid
+  rw [if_neg h5] at h
+  by_cases h6 : (c == '(') = true
+  · rw [if_pos h6] at h; cases h; exact unw_single_p24 c r hid
+  rw [if_neg h6] at h
+  by_cases h7 : (c == ')') = true
+  · rw [if_pos h7] at h; cases h; exact unw_single_p24 c r hid
+  rw [if_neg h7] at h
+  by_cases h8 : (c == '<') = true
+  · rw [if_pos h8] at h
+    simp only [beq_iff_eq] at h8
+    subst h8
+    split at h
+    · cases h
+      have e : unwAt false '<' rest = false := by unfold unwAt; rfl
+      rw [unw_single_p24 '<' _ (by decide), unw_single_p24 '<' rest (by decide), e, Bool.false_or]
+    · cases h
+  rw [if_neg h8] at h
+  by_cases h9 : (c == '>') = true
+  · rw [if_pos h9] at h
+    simp only [beq_iff_eq] at h9
+    subst h9
+    split at h
+    · cases h
+      have e : unwAt false '>' rest = false := by unfold unwAt; rfl
+      rw [unw_single_p24 '>' _ (by decide), unw_single_p24 '>' rest (by decide), e, Bool.false_or]
+    · cases h
+  rw [if_neg h9] at h
+  rw [if_neg hdg, if_neg his] at h
+  cases h
 
 theorem cppLex_succ_cons_p24 (n : Nat) (c : Char) (r : List Char) :
     cppLex (n + 1) (c :: r) = (match cppHead c r with
@@ -710,12 +877,11 @@ theorem cpp_lex_agree_p24 (n : Nat) : ∀ (cs : List Char) (ts : List Tok) (st :
         obtain ⟨ot, rest⟩ := p
         rw [hh] at hl
         have hlen := lexHead_length false c r ot rest hh
-        obtain ⟨pre, e, -, -, -⟩ := lexHead_spec false c r ot rest hh
-        have hu' : unwritable rest = false := unwritable_suffix_p24 pre rest (e ▸ hu)
+        have hu : unw false (c :: r) = false := hu
+        rw [lexHead_unw_p24 c r ot rest hh, Bool.or_eq_false_iff] at hu
+        have hu' : unwritable rest = false := hu.2
         have hz' := lexHead_hlz false c r ot rest hh false hz
-        have hu0 : unwAt c r = false := by
-          rw [unwritable, Bool.or_eq_false_iff] at hu
-          exact hu.1
+        have hu0 : unwAt false c r = false := hu.1
         obtain ⟨c1, c2, c3, c4⟩ := ctx_p24 n c r ot rest ts st hh hl hs
         obtain ⟨oct, hc, hcorr⟩ := cppHead_agree_p24 c r ot rest hh hu0 hz c1 c2 c3 c4
         simp only [List.length_cons] at hn
@@ -800,10 +966,11 @@ theorem hexE_iff_p24 : ∀ (r : List Char) (e : Bool), hexE e r = true ↔
           exact (hexE_iff_p24 _ _).mpr (Or.inr ⟨hs, E, S, rest, rfl,
             fun x hx => hall x (List.mem_cons_of_mem _ hx), hE, hS⟩)
 
-/-- a match of UNWRITABLE_TEXT starts here: a control character other than TAB, `--`, `++`, or `0[xX][0-9a-fA-F]*[eE][-+]` -/
-def RegexAt (c : Char) (r : List Char) : Prop :=
+/-- a match of UNWRITABLE_TEXT starts here: a control character other than TAB, `--`, `++`, or
+    `(?<![A-Za-z0-9_])0[xX][0-9a-fA-F]*[eE][-+]` (`prev` = the character before is an identifier character) -/
+def RegexAt (prev : Bool) (c : Char) (r : List Char) : Prop :=
   (c.toNat < 32 ∧ c ≠ '\t') ∨ (c = '-' ∧ ∃ r', r = '-' :: r') ∨ (c = '+' ∧ ∃ r', r = '+' :: r') ∨
-  (c = '0' ∧ ∃ X hs E S rest, r = X :: (hs ++ E :: S :: rest) ∧ (X = 'x' ∨ X = 'X') ∧
+  (prev = false ∧ c = '0' ∧ ∃ X hs E S rest, r = X :: (hs ++ E :: S :: rest) ∧ (X = 'x' ∨ X = 'X') ∧
     (∀ h ∈ hs, isHexC h = true) ∧ (E = 'e' ∨ E = 'E') ∧ (S = '+' ∨ S = '-'))
 
 theorem nextIs_iff_p24 (x : Char) (r : List Char) : nextIs x r = true ↔ ∃ r', r = x :: r' := by
@@ -811,15 +978,15 @@ theorem nextIs_iff_p24 (x : Char) (r : List Char) : nextIs x r = true ↔ ∃ r'
   | nil => simp [nextIs]
   | cons d r' => simp [nextIs]
 
-theorem unwAt_iff (c : Char) (r : List Char) : unwAt c r = true ↔ RegexAt c r := by
+theorem unwAt_iff (b : Bool) (c : Char) (r : List Char) : unwAt b c r = true ↔ RegexAt b c r := by
   unfold unwAt RegexAt
-  simp only [Bool.or_eq_true, Bool.and_eq_true, decide_eq_true_eq, beq_iff_eq, nextIs_iff_p24]
+  simp only [Bool.or_eq_true, Bool.and_eq_true, decide_eq_true_eq, beq_iff_eq, nextIs_iff_p24, Bool.not_eq_true']
   constructor
-  · rintro (((h | h) | h) | ⟨⟨h0, hx⟩, he⟩)
+  · rintro (((h | h) | h) | ⟨⟨⟨hp, h0⟩, hx⟩, he⟩)
     · exact Or.inl h
     · exact Or.inr (Or.inl h)
     · exact Or.inr (Or.inr (Or.inl h))
-    · refine Or.inr (Or.inr (Or.inr ⟨h0, ?_⟩))
+    · refine Or.inr (Or.inr (Or.inr ⟨hp, h0, ?_⟩))
       have key : ∀ X r', r = X :: r' → (X = 'x' ∨ X = 'X') → ∃ X hs E S rest, r = X :: (hs ++ E :: S :: rest) ∧
           (X = 'x' ∨ X = 'X') ∧ (∀ h ∈ hs, isHexC h = true) ∧ (E = 'e' ∨ E = 'E') ∧ (S = '+' ∨ S = '-') := by
         intro X r' e hX
@@ -832,26 +999,45 @@ theorem unwAt_iff (c : Char) (r : List Char) : unwAt c r = true ↔ RegexAt c r 
       rcases hx with ⟨r', e⟩ | ⟨r', e⟩
       · exact key _ _ e (Or.inl rfl)
       · exact key _ _ e (Or.inr rfl)
-  · rintro (h | h | h | ⟨h0, X, hs, E, S, rest, e, hX, hall, hE, hS⟩)
+  · rintro (h | h | h | ⟨hp, h0, X, hs, E, S, rest, e, hX, hall, hE, hS⟩)
     · exact Or.inl (Or.inl (Or.inl h))
     · exact Or.inl (Or.inl (Or.inr h))
     · exact Or.inl (Or.inr h)
     · subst e
-      refine Or.inr ⟨⟨h0, ?_⟩, ?_⟩
+      refine Or.inr ⟨⟨⟨hp, h0⟩, ?_⟩, ?_⟩
       · rcases hX with rfl | rfl
         · exact Or.inl ⟨_, rfl⟩
         · exact Or.inr ⟨_, rfl⟩
       · exact (hexE_iff_p24 _ _).mpr (Or.inr ⟨hs, E, S, rest, rfl, hall, hE, by simpa [isSignC] using hS⟩)
 
-/-- `unwritable` is `re.search(UNWRITABLE_TEXT, text)`: the regular expression matches at some position -/
-theorem unwritable_iff : ∀ (cs : List Char), unwritable cs = true ↔ ∃ pre c r, cs = pre ++ c :: r ∧ RegexAt c r
-  | [] => by
+/-- the look-behind flag after the prefix `pre`: is its last character an identifier character (`b` when empty) -/
+def prevId (b : Bool) (pre : List Char) : Bool := pre.foldl (fun _ p => isIdChar p) b
+
+theorem prevId_eq_p24 : ∀ (pre : List Char) (b : Bool), prevId b pre = (match pre.getLast? with
+    | some p => isIdChar p
+    | none => b)
+  | [], _ => rfl
+  | p :: pre, b => by
+    show prevId (isIdChar p) pre = _
+    rw [prevId_eq_p24 pre, List.getLast?_cons]
+    cases pre.getLast? <;> rfl
+
+theorem prevId_false_iff (pre : List Char) :
+    prevId false pre = false ↔ ∀ p, pre.getLast? = some p → isIdChar p = false := by
+  rw [prevId_eq_p24]
+  cases pre.getLast? with
+  | none => simp
+  | some q => simp
+
+theorem unw_iff : ∀ (cs : List Char) (b : Bool), unw b cs = true ↔
+    ∃ pre c r, cs = pre ++ c :: r ∧ RegexAt (prevId b pre) c r
+  | [], b => by
     constructor
     · intro h; cases h
     · rintro ⟨pre, c, r, h, -⟩
       cases pre <;> cases h
-  | c :: r => by
-    rw [unwritable, Bool.or_eq_true, unwAt_iff, unwritable_iff r]
+  | c :: r, b => by
+    rw [unw, Bool.or_eq_true, unwAt_iff, unw_iff r]
     constructor
     · rintro (h | ⟨pre, c', r', rfl, h⟩)
       · exact ⟨[], c, r, rfl, h⟩
@@ -866,6 +1052,12 @@ theorem unwritable_iff : ∀ (cs : List Char), unwritable cs = true ↔ ∃ pre 
         simp only [List.cons_append, List.cons.injEq] at e
         obtain ⟨rfl, rfl⟩ := e
         exact Or.inr ⟨pre, c', r', rfl, h⟩
+
+/-- `unwritable` is `re.search(UNWRITABLE_TEXT, text)`: the regular expression matches at some position (the
+    look-behind of the hex clause looks at the last character of `pre`) -/
+theorem unwritable_iff (cs : List Char) :
+    unwritable cs = true ↔ ∃ pre c r, cs = pre ++ c :: r ∧ RegexAt (prevId false pre) c r :=
+  unw_iff cs false
 
 /-! ### 5 (continued). where UNWRITABLE_TEXT matches, the C++ token is not a calc token -/
 
@@ -911,6 +1103,136 @@ theorem cppHead_hex_e_sign (hs : List Char) (E S : Char) (rest : List Char) (hal
       rw [List.all_eq_false]
       exact ⟨S, by simp, by rw [sign_not_hex_p24 S hS]; simp⟩
     simp [ofCTok, ppValue, this]
+
+/-! ### the converse: on a text calc accepts, a match of UNWRITABLE_TEXT means other C++ tokens -/
+
+theorem cppToks_none_p24 (n : Nat) (c : Char) (r : List Char) (ct : CTok) (rest' : List Char)
+    (hc : cppHead c r = some (some ct, rest')) (hof : ofCTok ct = none) (ts : List Tok) :
+    cppToks (n + 1) (c :: r) ≠ some ts := by
+  unfold cppToks
+  rw [cppLex_succ_cons_p24, hc]
+  show ((cppLex n rest').map (ct :: ·)).bind (fun cts => List.mapM ofCTok cts) ≠ some ts
+  cases cppLex n rest' with
+  | none => simp
+  | some cts => simp [List.mapM_cons, hof]
+
+theorem cppToks_cons_inv_p24 (n : Nat) (c : Char) (r : List Char) (ct : CTok) (rest : List Char) (t : Tok)
+    (hc : cppHead c r = some (some ct, rest)) (hof : ofCTok ct = some t) (t' : Tok) (ts' : List Tok)
+    (h : cppToks (n + 1) (c :: r) = some (t' :: ts')) : cppToks n rest = some ts' := by
+  unfold cppToks at h ⊢
+  rw [cppLex_succ_cons_p24, hc] at h
+  have h : ((cppLex n rest).map (ct :: ·)).bind (fun cts => List.mapM ofCTok cts) = some (t' :: ts') := h
+  cases hcl : cppLex n rest with
+  | none => rw [hcl] at h; simp at h
+  | some cts =>
+    rw [hcl] at h
+    cases hm : List.mapM ofCTok cts with
+    | none => simp [List.mapM_cons, hof, hm] at h
+    | some ys =>
+      simp [List.mapM_cons, hof, hm] at h
+      show List.mapM ofCTok cts = some ts'
+      rw [hm, h.2]
+
+theorem cppToks_blank_p24 (n : Nat) (c : Char) (r rest : List Char) (hc : cppHead c r = some (none, rest)) :
+    cppToks (n + 1) (c :: r) = cppToks n rest := by
+  unfold cppToks
+  rw [cppLex_succ_cons_p24, hc]
+
+/-- calc refuses every control character but TAB -/
+theorem lexHead_control_none_p24 (c : Char) (r : List Char) (h : c.toNat < 32 ∧ c ≠ '\t') :
+    lexHead false c r = none := by
+  have ne : ∀ x : Char, 32 ≤ x.toNat → (c == x) = false := by
+    intro x hx
+    cases hcx : c == x with
+    | false => rfl
+    | true =>
+      have := eq_of_beq hcx
+      subst this
+      omega
+  have hd : c.isDigit = false := by
+    cases hd : c.isDigit with
+    | false => rfl
+    | true => have := isIdChar_ge_p24 c (isDigit_isIdChar_p24 c hd); omega
+  have hi : isIdStart c = false := by
+    cases hi : isIdStart c with
+    | false => rfl
+    | true => have := isIdChar_ge_p24 c (isIdStart_isIdChar_p22 c hi); omega
+  have ht : (c == '\t') = false := by simpa using h.2
+  unfold lexHead
+  simp [ne ' ' (by decide), ht, ne '+' (by decide), ne '-' (by decide), ne '*' (by decide),
+    ne '/' (by decide), ne '|' (by decide), ne '(' (by decide), ne ')' (by decide), ne '<' (by decide),
+    ne '>' (by decide), hd, hi]
+
+/-- `0X...` (capital X): one pp-number for C++, and not a literal calc has -/
+theorem cppHead_0X_p24 (r' : List Char) :
+    cppHead '0' ('X' :: r') = some (some (.ppnum ('0' :: 'X' :: (ppSpan false r').1)), (ppSpan false r').2) ∧
+      ofCTok (.ppnum ('0' :: 'X' :: (ppSpan false r').1)) = none := by
+  constructor
+  · rw [cppHead_digit_p24 '0' _ (by decide), ppSpan_cons_p24]; rfl
+  · rfl
+
+theorem cpp_lex_differs_p24 (n : Nat) : ∀ (cs : List Char) (ts : List Tok) (st : Bool),
+    lex false n cs = some ts → okSeq st ts = true → hlz false cs = false → unw false cs = true →
+    cppToks n cs ≠ some ts := by
+  induction n with
+  | zero => intro cs ts st hl; rw [lex_zero_p22] at hl; cases hl
+  | succ n ih =>
+    intro cs ts st hl hs hz hu
+    cases cs with
+    | nil => cases hu
+    | cons c r =>
+      rw [lex_succ_cons] at hl
+      cases hh : lexHead false c r with
+      | none => rw [hh] at hl; cases hl
+      | some p =>
+        obtain ⟨ot, rest⟩ := p
+        rw [hh] at hl
+        by_cases hA : unwAt false c r = true
+        · -- the match starts at this token: the C++ token here is not a calc token
+          rcases (unwAt_iff false c r).mp hA with h1 | ⟨rfl, r', rfl⟩ | ⟨rfl, r', rfl⟩ |
+            ⟨-, rfl, X, hxs, E, S, rest', rfl, hX, hall, hE, hS⟩
+          · rw [lexHead_control_none_p24 c r h1] at hh; cases hh
+          · exact cppToks_none_p24 n _ _ _ _ (cppHead_minusminus r').1 rfl ts
+          · exact cppToks_none_p24 n _ _ _ _ (cppHead_plusplus r').1 rfl ts
+          · rcases hX with rfl | rfl
+            · have hS' : isSignC S = true := by rcases hS with rfl | rfl <;> rfl
+              obtain ⟨more, rest'', hc, hof⟩ := cppHead_hex_e_sign hxs E S rest' hall hE hS'
+              exact cppToks_none_p24 n _ _ _ _ hc hof ts
+            · exact cppToks_none_p24 n _ _ _ _ (cppHead_0X_p24 _).1 (cppHead_0X_p24 _).2 ts
+        · -- the match is further on: this step agrees, go on
+          have hA' : unwAt false c r = false := by simpa using hA
+          rw [lexHead_unw_p24 c r ot rest hh, hA', Bool.false_or] at hu
+          have hz' := lexHead_hlz false c r ot rest hh false hz
+          obtain ⟨c1, c2, c3, c4⟩ := ctx_p24 n c r ot rest ts st hh hl hs
+          obtain ⟨oct, hc, hcorr⟩ := cppHead_agree_p24 c r ot rest hh hA' hz c1 c2 c3 c4
+          rcases hcorr with ⟨rfl, rfl⟩ | ⟨t, ct, rfl, rfl, hof⟩
+          · rw [cppToks_blank_p24 n c r rest hc]
+            exact ih rest ts st hl hs hz' hu
+          · simp only [lexCont, Option.map_eq_some_iff] at hl
+            obtain ⟨ts', hl', rfl⟩ := hl
+            obtain ⟨st', hs'⟩ := okSeq_tail_p24 st t ts' hs
+            intro heq
+            exact ih rest ts' st' hl' hs' hz' hu (cppToks_cons_inv_p24 n c r ct rest t hc hof t ts' heq)
+
+/-- **Converse.**  On a text that calc lexes and parses and that has no leading-zero literal, a match of
+    UNWRITABLE_TEXT means that the C++ compiler does NOT read calc's tokens: the first match starts a token
+    (`--`, `++`, or a pp-number running through the sign) that is no calc token. -/
+theorem cpp_lex_differs_of_unwritable (cs : List Char) (ts : List Tok) (n : Nat)
+    (hl : lex false n cs = some ts) (hp : (parse ts).isSome) (hz : hasLeadingZero cs = false)
+    (hw : unwritable cs = true) :
+    (cppLex n cs).bind (fun cts => cts.mapM ofCTok) ≠ some ts :=
+  cpp_lex_differs_p24 n cs ts true hl (okSeq_of_parse ts hp) hz hw
+
+/-- UNWRITABLE_TEXT is exact on the texts calc accepts (leading-zero literals aside) -/
+theorem unwritable_exact (cs : List Char) (ts : List Tok) (n : Nat) (hn : cs.length < n)
+    (hl : lex false n cs = some ts) (hp : (parse ts).isSome) (hz : hasLeadingZero cs = false) :
+    (cppLex n cs).bind (fun cts => cts.mapM ofCTok) = some ts ↔ unwritable cs = false := by
+  constructor
+  · intro h
+    cases hw : unwritable cs with
+    | false => rfl
+    | true => exact (cpp_lex_differs_of_unwritable cs ts n hl hp hz hw h).elim
+  · exact fun hw => cpp_lexes_like_calc cs ts n hn hl hp hw hz
 
 /-! ### 5. witnesses -/
 
@@ -975,15 +1297,22 @@ example : unwritable "1\t+ 2".toList = false ∧ cppToks 7 "1\t+ 2".toList = lex
   decide
 -- every other control character is still refused (and calc does not lex it anyway)
 example : unwritable "1\n+ 2".toList = true ∧ lex false 7 "1\n+ 2".toList = none := by decide
--- the converse still fails: UNWRITABLE_TEXT refuses more than the lexers need - `0x1e+` inside an identifier
--- is no number
-example : unwritable "a0x1e+1".toList = true ∧ cppToks 8 "a0x1e+1".toList = lex false 8 "a0x1e+1".toList ∧
+-- `0x1e+` inside an identifier is no number: writable since the look-behind was added to UNWRITABLE_TEXT
+example : unwritable "a0x1e+1".toList = false ∧ cppToks 8 "a0x1e+1".toList = lex false 8 "a0x1e+1".toList ∧
     lex false 8 "a0x1e+1".toList = some [.ident "a0x1e", .plus, .num 1] := by decide
+example : unwritable "OFFSET_0xE+1".toList = false ∧
+    cppToks 13 "OFFSET_0xE+1".toList = lex false 13 "OFFSET_0xE+1".toList ∧
+    lex false 13 "OFFSET_0xE+1".toList = some [.ident "OFFSET_0xE", .plus, .num 1] := by decide
+-- the literal itself is still refused, also after an operator or a blank
+example : unwritable "0xE+1".toList = true ∧ unwritable "1+0xE+1".toList = true ∧
+    unwritable "1 + 0Xe-1".toList = true := by decide
 
 end Expr
 end Prophy
 
 #print axioms Prophy.Expr.cpp_lexes_like_calc
 #print axioms Prophy.Expr.unwritable_iff
+#print axioms Prophy.Expr.cpp_lex_differs_of_unwritable
+#print axioms Prophy.Expr.unwritable_exact
 #print axioms Prophy.Expr.okSeq_of_parse
 #print axioms Prophy.Expr.cppHead_hex_e_sign
